@@ -156,6 +156,77 @@ func minimalSize(ws [][]byte) (classes int, prefixes int) {
 	return len(res), len(pre)
 }
 
+// minimalSizeTrie counts the same classes without enumerating residual languages: the trie of
+// ws is merged bottom-up, two nodes being the same class when they agree on the final flag and
+// on (label, class of the target) for every link -- written with fixed-width fields, so the
+// key is unambiguous for every byte value and every class number.  Returns the number of
+// classes and the number of trie nodes (= distinct prefixes, the empty one included).
+func minimalSizeTrie(ws [][]byte) (classes int, prefixes int) {
+	type tn struct {
+		final  bool
+		labels []byte
+		kids   []int
+	}
+	nodes := []tn{{}}
+	for _, w := range ws {
+		cur := 0
+		for _, b := range w {
+			next := -1
+			for i, l := range nodes[cur].labels {
+				if l == b {
+					next = nodes[cur].kids[i]
+					break
+				}
+			}
+			if next < 0 {
+				next = len(nodes)
+				nodes = append(nodes, tn{})
+				nodes[cur].labels = append(nodes[cur].labels, b)
+				nodes[cur].kids = append(nodes[cur].kids, next)
+			}
+			cur = next
+		}
+		nodes[cur].final = true
+	}
+	class := make([]int, len(nodes))
+	seen := map[string]int{}
+	for i := len(nodes) - 1; i >= 0; i-- { // children are created after their parents
+		n := nodes[i]
+		ord := make([]int, len(n.labels))
+		for j := range ord {
+			ord[j] = j
+		}
+		sort.Slice(ord, func(a, b int) bool { return n.labels[ord[a]] < n.labels[ord[b]] })
+		key := make([]byte, 0, 1+9*len(ord))
+		if n.final {
+			key = append(key, 1)
+		} else {
+			key = append(key, 0)
+		}
+		for _, j := range ord {
+			c := uint64(class[n.kids[j]])
+			key = append(key, n.labels[j], byte(c>>56), byte(c>>48), byte(c>>40), byte(c>>32), byte(c>>24), byte(c>>16), byte(c>>8), byte(c))
+		}
+		k, ok := seen[string(key)]
+		if !ok {
+			k = len(seen)
+			seen[string(key)] = k
+		}
+		class[i] = k
+	}
+	return len(seen), len(nodes)
+}
+
+// bruteForceCheap says whether minimalSize (prefixes x total letters) is affordable.
+func bruteForceCheap(ws [][]byte) bool {
+	total, pre := 0, 1
+	for _, w := range ws {
+		total += len(w) + 1
+		pre += len(w)
+	}
+	return pre*total <= 4000000
+}
+
 func exec(line string) hx.Result {
 	c := parse(line)
 	var viol []hx.OracleViolation
@@ -196,9 +267,16 @@ func exec(line string) hx.Result {
 		ws[i] = hexWord(w)
 	}
 	nodes := d.VerifNodeCount()
-	mn, npre := minimalSize(accepted)
+	// Myhill-Nerode size: by enumeration of the residual languages where that is affordable,
+	// by bottom-up merging of the trie always (long words, hundreds of words)
+	mn, npre := minimalSizeTrie(accepted)
 	if nodes != mn {
 		viol = append(viol, hx.Fail("C12:not-minimal", "node count %d, minimal automaton has %d states", nodes, mn))
+	}
+	if bruteForceCheap(accepted) {
+		if bn, _ := minimalSize(accepted); nodes != bn {
+			viol = append(viol, hx.Fail("C12:not-minimal-enum", "node count %d, the prefixes have %d distinct residual languages", nodes, bn))
+		}
 	}
 	if len(d.VerifDump()) != nodes {
 		viol = append(viol, hx.Fail("C12:node-count", "numberOfNodes %d but %d nodes reachable", nodes, len(d.VerifDump())))
@@ -272,9 +350,15 @@ func exec(line string) hx.Result {
 		}
 	}
 	rej := len(c.tokens) - len(accepted)
+	depth := 0
+	for _, w := range accepted {
+		if len(w) > depth {
+			depth = len(w)
+		}
+	}
 	return hx.Result{Obs: obs, Nontrivial: nodes < npre || properPrefix, Viol: viol,
 		Buckets: []string{fmt.Sprintf("words<=%d", bucket(len(accepted))), fmt.Sprintf("alphabet<=%d", bucket(alphabetSize(accepted))),
-			fmt.Sprintf("branch<=%d", bucket(maxBranch)), fmt.Sprintf("rejected<=%d", bucket(rej))}}
+			fmt.Sprintf("branch<=%d", bucket(maxBranch)), fmt.Sprintf("rejected<=%d", bucket(rej)), fmt.Sprintf("depth<=%d", bucket(depth)), fmt.Sprintf("nodes<=%d", bucket(nodes))}}
 }
 
 func joinU64(a []uint64) string {
@@ -580,6 +664,477 @@ func gen(g *hx.Gen) {
 			toks = withBadAdds(r, ws, []byte("abc"))
 		}
 		emit(tcase{alpha: []byte("ab"), plen: 2, zero: r.Chance(1, 3), extra: extraProbes(r, ws, []byte{0, 'a', 'x', 0xff}), tokens: toks})
+	}
+	genRound3(g, emit)
+}
+
+// ---------------------------------------------------------------- round 3: byte range, counters, depth, width
+
+// sizes just below, at and above the powers of two (and a few in between) at which fixed
+// buffers, small integer types and decimal field widths change
+var countSteps = []int{30, 36, 50, 64, 99, 100, 101, 127, 128, 129, 200, 255, 256, 257, 300}
+var depthSteps = []int{15, 16, 17, 31, 32, 33, 63, 64, 65, 66, 100, 127, 128, 129, 255, 256, 257, 300, 400}
+var widthSteps = []int{8, 9, 10, 15, 16, 17, 31, 32, 33, 63, 64, 65, 127, 128, 129, 200, 255, 256}
+
+func pickBytes(r *hx.Rng, from []byte, lo, hi int) []byte {
+	if hi > len(from) {
+		hi = len(from)
+	}
+	if lo > hi {
+		lo = hi
+	}
+	k := r.Range(lo, hi)
+	p := r.Perm(len(from))[:k]
+	sort.Ints(p)
+	a := make([]byte, k)
+	for i, v := range p {
+		a[i] = from[v]
+	}
+	return a
+}
+
+func mergeBytes(as ...[]byte) []byte {
+	var seen [256]bool
+	var out []byte
+	for _, a := range as {
+		for _, b := range a {
+			if !seen[b] {
+				seen[b] = true
+				out = append(out, b)
+			}
+		}
+	}
+	sort.Slice(out, func(i, j int) bool { return out[i] < out[j] })
+	return out
+}
+
+// byteAlphabet draws letters from the whole byte range: digits, punctuation and bytes that
+// look like field separators or terminators, NUL, 0xff, the sign boundary 0x7f/0x80, blanks.
+func byteAlphabet(r *hx.Rng) []byte {
+	digits := []byte("0123456789")
+	seps := []byte(",.:;|/-+_ #=\\\"'()[]{}<>%&*!?@^~`$")
+	ctrl := []byte{0x00, 0x01, 0x09, 0x0a, 0x0d, 0x1b, 0x20, 0x7f, 0x80, 0xfe, 0xff}
+	switch r.Intn(10) {
+	case 0:
+		return []byte("123")
+	case 1:
+		return digits
+	case 2:
+		return pickBytes(r, digits, 2, 6)
+	case 3: // digits with separators
+		return mergeBytes(pickBytes(r, digits, 2, 4), pickBytes(r, seps, 1, 3))
+	case 4: // separators / punctuation only
+		return pickBytes(r, seps, 2, 6)
+	case 5: // NUL, 0xff and their neighbours
+		return mergeBytes([]byte{0x00, 0xff}, pickBytes(r, ctrl, 0, 3))
+	case 6: // NUL next to the digit '0', 0xff, a separator
+		return mergeBytes([]byte{0x00, '0'}, pickBytes(r, []byte{'1', 0xff, ',', ' ', 0x0a}, 1, 3))
+	case 7: // letters with digits
+		return mergeBytes(pickBytes(r, []byte("abcxyzAZ"), 1, 3), pickBytes(r, digits, 1, 3))
+	case 8: // blanks and control bytes
+		return pickBytes(r, ctrl, 2, 6)
+	default: // any bytes
+		k := r.Range(2, 12)
+		p := r.Perm(256)[:k]
+		sort.Ints(p)
+		a := make([]byte, k)
+		for i, v := range p {
+			a[i] = byte(v)
+		}
+		return a
+	}
+}
+
+func randWordLen(r *hx.Rng, alpha []byte, n int) []byte {
+	w := make([]byte, n)
+	for i := range w {
+		w[i] = alpha[r.Intn(len(alpha))]
+	}
+	return w
+}
+
+func cat(parts ...[]byte) []byte {
+	var w []byte
+	for _, p := range parts {
+		w = append(w, p...)
+	}
+	if w == nil {
+		w = []byte{}
+	}
+	return w
+}
+
+// manyWords builds about n distinct words (so that node ids, numWords and ranks reach two and
+// three decimal digits and pass 127 and 255) with many nodes of the same label set.
+func manyWords(r *hx.Rng, alpha []byte, n int) [][]byte {
+	k := len(alpha)
+	need := func(target int) int { // smallest m with k^m >= target (k >= 2)
+		m, c := 1, k
+		for c < target {
+			c *= k
+			m++
+		}
+		return m
+	}
+	set := map[string]bool{}
+	var ws [][]byte
+	add := func(w []byte) {
+		if !set[string(w)] {
+			set[string(w)] = true
+			ws = append(ws, w)
+		}
+	}
+	switch r.Intn(5) {
+	case 0: // independent words of mixed length
+		maxLen := need(4*n) + r.Intn(3)
+		for tries := 0; len(ws) < n && tries < 20*n; tries++ {
+			add(randWordLen(r, alpha, r.Range(1, maxLen)))
+		}
+	case 1: // numerals: consecutive numbers written with the alphabet as digits, some left out
+		v := r.Intn(60)
+		for len(ws) < n {
+			if r.Chance(3, 4) {
+				var w []byte
+				for x := v; ; x /= k {
+					w = append([]byte{alpha[x%k]}, w...)
+					if x < k {
+						break
+					}
+				}
+				add(w)
+			}
+			v++
+		}
+	case 2: // all of one length: a layered automaton
+		m := need(2 * n)
+		for tries := 0; len(ws) < n && tries < 20*n; tries++ {
+			add(randWordLen(r, alpha, m))
+		}
+	case 3: // heads x tails
+		nt := r.Range(3, 10)
+		var tails [][]byte
+		for i := 0; i < nt; i++ {
+			tails = append(tails, randWordLen(r, alpha, r.Range(1, 5)))
+		}
+		hl := need(2*n/nt + 2)
+		for tries := 0; len(ws) < n && tries < 20*n; tries++ {
+			h := randWordLen(r, alpha, r.Range(1, hl+1))
+			for _, t := range tails {
+				if r.Chance(4, 5) {
+					add(cat(h, t))
+				}
+			}
+		}
+	default: // a few long stems with every extension by short words
+		for len(ws) < n {
+			stem := randWordLen(r, alpha, r.Range(0, 6))
+			m := r.Range(4, 40)
+			for j := 0; j < m; j++ {
+				add(cat(stem, randWordLen(r, alpha, r.Range(0, 4))))
+			}
+		}
+	}
+	if len(ws) > n {
+		ws = ws[:n]
+	}
+	return sortDedup(ws)
+}
+
+// longWords builds a small set of words of length about L that share long prefixes and long
+// tails, so that the branch closed by replaceOrRegister, the path walked by commonPrefix,
+// addSuffix and Lookup, and the chain minimised at Finish are all about L nodes deep.
+func longWords(r *hx.Rng, alpha []byte, L int) [][]byte {
+	small := L <= 130
+	tail := randWordLen(r, alpha, L)
+	if r.Chance(1, 4) { // one repeated letter
+		for i := range tail {
+			tail[i] = alpha[0]
+		}
+	}
+	heads := func(k int) [][]byte { // k distinct non-empty heads
+		hs := map[string]bool{}
+		var out [][]byte
+		for len(out) < k {
+			h := randWordLen(r, alpha, r.Range(1, 3))
+			h = append(h, byte(len(out))) // distinct whatever the alphabet
+			if !hs[string(h)] {
+				hs[string(h)] = true
+				out = append(out, h)
+			}
+		}
+		return out
+	}
+	var ws [][]byte
+	switch r.Intn(6) {
+	case 0: // k heads, one tail: the tail must be shared
+		k := r.Range(2, 3)
+		if small {
+			k = r.Range(2, 12)
+		}
+		for _, h := range heads(k) {
+			ws = append(ws, cat(h, tail))
+		}
+	case 1: // long common prefix, distinct middles, long common tail
+		pre := randWordLen(r, alpha, []int{1, 15, 17, 33, 63, 65}[r.Intn(6)])
+		for _, h := range heads(r.Range(2, 4)) {
+			ws = append(ws, cat(pre, h, tail))
+		}
+	case 2: // the same final positions along the tail under every head
+		var cuts []int
+		for j := 0; j <= L; j++ {
+			if j == L || r.Chance(1, 12) {
+				cuts = append(cuts, j)
+			}
+		}
+		if !small && len(cuts) > 6 {
+			cuts = cuts[len(cuts)-6:]
+		}
+		for _, h := range heads(r.Range(2, 3)) {
+			for _, j := range cuts {
+				ws = append(ws, cat(h, tail[:j]))
+			}
+		}
+	case 3: // tails equal but for one position: early (shared below it) or at the very end
+		hs := heads(3)
+		t2 := append([]byte{}, tail...)
+		pos := []int{0, 1, L / 2, L - 2, L - 1}[r.Intn(5)]
+		if pos < 0 {
+			pos = 0
+		}
+		t2[pos] ^= 0x55
+		ws = append(ws, cat(hs[0], tail), cat(hs[1], t2), cat(hs[2], tail))
+	case 4: // two tails of different lengths around L, several heads each
+		tl := [][]byte{tail, tail[1:], cat(tail, alpha[:1])}
+		k := r.Range(2, 4)
+		for i, h := range heads(k) {
+			ws = append(ws, cat(h, tl[i%3]))
+		}
+		ws = append(ws, tail)
+	default: // a comb: words forking off one long word at many depths, all ending alike
+		end := randWordLen(r, alpha, r.Range(1, 3))
+		end = append(end, 0xff)
+		ws = append(ws, tail)
+		step := r.Range(5, 20)
+		if !small {
+			step = L / r.Range(3, 6)
+		}
+		for j := L - 1; j > 0; j -= step {
+			ws = append(ws, cat(tail[:j], []byte{tail[j] ^ 0x01}, end))
+		}
+	}
+	return sortDedup(ws)
+}
+
+// wideWords builds nodes with k links (labels drawn from all bytes): several of them with the
+// same links (must be merged) and one that differs in a single target or a single label.
+func wideWords(r *hx.Rng, k int) [][]byte {
+	labels := make([]byte, k)
+	p := r.Perm(256)
+	for i := range labels {
+		labels[i] = byte(p[i])
+	}
+	tails := [][]byte{{}, {byte(r.Intn(256))}, {byte(r.Intn(256)), byte(r.Intn(256))}}
+	nt := r.Range(1, 3)
+	var ws [][]byte
+	switch r.Intn(4) {
+	case 0: // the root itself
+		for _, l := range labels {
+			ws = append(ws, cat([]byte{l}, tails[r.Intn(nt)]))
+		}
+	case 1: // below a stem, some labels also final
+		stem := randWordLen(r, []byte{'0', ',', 0x00, 0xff}, r.Range(1, 3))
+		for _, l := range labels {
+			ws = append(ws, cat(stem, []byte{l}, tails[r.Intn(nt)]))
+		}
+		ws = append(ws, stem)
+	default: // two or three heads over the same wide node, one more over a near copy
+		tl := make([][]byte, k)
+		for i := range tl {
+			tl[i] = tails[r.Intn(nt)]
+		}
+		heads := [][]byte{{'1'}, {'1', '0'}, {0x00}, {0xff, ','}}
+		nh := r.Range(2, 3)
+		for _, h := range heads[:nh] {
+			for i, l := range labels {
+				ws = append(ws, cat(h, []byte{l}, tl[i]))
+			}
+		}
+		odd := r.Intn(k)
+		for i, l := range labels {
+			t := tl[i]
+			if i == odd {
+				if r.Bool() {
+					t = cat(t, []byte{'9'}) // another target under the same label
+				} else if k < 256 {
+					l = byte(p[k]) // another label
+				}
+			}
+			ws = append(ws, cat(heads[3], []byte{l}, t))
+		}
+	}
+	return sortDedup(ws)
+}
+
+// gridWords builds a pool of K distinct short tails and one node for (almost) every
+// combination of targets from the pool under one fixed label set: head.l1.tail_i, head.l2.tail_j
+// (and head.l3.tail_k).  All these nodes agree on the final flag and on their labels and differ
+// only in which pool nodes they point to, so the register has to keep a hundred and more nodes
+// apart by target identity alone while the ids run through one, two and three decimal digits.
+func gridWords(r *hx.Rng, alpha []byte, K, nl, maxWords int) [][]byte {
+	k := len(alpha)
+	need := func(target int) int {
+		m, c := 1, k
+		for c < target {
+			c *= k
+			m++
+		}
+		return m
+	}
+	if nl > k {
+		nl = k
+	}
+	lp := r.Perm(k)[:nl]
+	sort.Ints(lp)
+	labels := make([]byte, nl)
+	for i, v := range lp {
+		labels[i] = alpha[v]
+	}
+	var tails [][]byte
+	if r.Chance(1, 4) { // the endings of one word: consecutive ids
+		t := randWordLen(r, alpha, K-1)
+		for i := 0; i < K; i++ {
+			tails = append(tails, t[i:])
+		}
+	} else {
+		tl := need(2*K) + r.Intn(2)
+		seen := map[string]bool{}
+		for len(tails) < K {
+			t := randWordLen(r, alpha, r.Range(0, tl))
+			if !seen[string(t)] {
+				seen[string(t)] = true
+				tails = append(tails, t)
+			}
+		}
+	}
+	total := 1
+	for i := 0; i < nl; i++ {
+		total *= K
+	}
+	M := maxWords / nl
+	var combos [][]int
+	if total <= M { // the full grid
+		M = total
+		for c := 0; c < total; c++ {
+			cb := make([]int, nl)
+			for i, x := 0, c; i < nl; i, x = i+1, x/K {
+				cb[i] = x % K
+			}
+			combos = append(combos, cb)
+		}
+		for i := len(combos) - 1; i > 0; i-- {
+			j := r.Intn(i + 1)
+			combos[i], combos[j] = combos[j], combos[i]
+		}
+	} else {
+		seen := map[string]bool{}
+		for len(combos) < M {
+			cb := make([]int, nl)
+			for i := range cb {
+				cb[i] = r.Intn(K)
+			}
+			if key := fmt.Sprint(cb); !seen[key] {
+				seen[key] = true
+				combos = append(combos, cb)
+			}
+		}
+	}
+	hl := need(M)
+	varHeads := r.Chance(1, 3)
+	hseen := map[string]bool{}
+	var heads [][]byte
+	for len(heads) < M {
+		n := hl
+		if varHeads {
+			n = r.Range(1, hl+1)
+		}
+		h := randWordLen(r, alpha, n)
+		if !hseen[string(h)] {
+			hseen[string(h)] = true
+			heads = append(heads, h)
+		}
+	}
+	heads = sortDedup(heads)
+	var ws [][]byte
+	for i, h := range heads {
+		for j, l := range labels {
+			ws = append(ws, cat(h, []byte{l}, tails[combos[i][j]]))
+		}
+	}
+	return sortDedup(ws)
+}
+
+func genRound3(g *hx.Gen, emit func(tcase)) {
+	r := g.Rng
+	finish := func(ws [][]byte, alpha []byte, bad bool) {
+		toks := ws
+		if bad {
+			toks = withBadAdds(r, ws, alpha)
+		}
+		pa := alpha
+		if len(pa) > 4 {
+			pa = pa[:4]
+		}
+		pn := 2
+		if len(pa) <= 2 {
+			pn = 3
+		}
+		ex := extraProbes(r, ws, alpha)
+		for i, total := 0, 0; i < len(ex); i++ { // keep the case line short (it is also a command-line argument on replay)
+			if total += len(ex[i]); total > 12000 {
+				ex = ex[:i]
+				break
+			}
+		}
+		emit(tcase{alpha: pa, plen: pn, zero: r.Chance(1, 3), extra: ex, tokens: toks})
+	}
+	// hundreds of words over alphabets from the whole byte range
+	for round := g.Pick(2, 24); round > 0; round-- {
+		for _, n := range countSteps {
+			for rep := 0; rep < 4; rep++ {
+				alpha := byteAlphabet(r)
+				finish(manyWords(r, alpha, n+r.Intn(2)*r.Intn(8)), alpha, r.Chance(1, 4))
+			}
+		}
+	}
+	// one label set, every combination of targets; half of them over digit letters
+	for i := g.Pick(300, 4000); i > 0; i-- {
+		alpha := byteAlphabet(r)
+		if r.Bool() {
+			alpha = [][]byte{[]byte("123"), []byte("0123456789"), []byte("12"), []byte("019"), []byte("1,2"), []byte("0:9|")}[r.Intn(6)]
+		}
+		K := []int{6, 8, 10, 12, 12, 12, 16, 24}[r.Intn(8)]
+		nl := 2
+		if r.Chance(1, 5) {
+			nl = 3
+			K = []int{4, 5, 6}[r.Intn(3)]
+		}
+		finish(gridWords(r, alpha, K, nl, []int{100, 200, 290, 290}[r.Intn(4)]), alpha, r.Chance(1, 6))
+	}
+	// deep branches
+	for round := g.Pick(2, 16); round > 0; round-- {
+		for _, L := range depthSteps {
+			alpha := byteAlphabet(r)
+			if r.Bool() {
+				alpha = []byte("ab")
+			}
+			finish(longWords(r, alpha, L), mergeBytes(alpha, []byte{0x00, 0xff}), r.Chance(1, 4))
+		}
+	}
+	// wide nodes
+	for round := g.Pick(2, 16); round > 0; round-- {
+		for _, k := range widthSteps {
+			finish(wideWords(r, k), []byte{0x00, '0', ',', 0xff}, r.Chance(1, 4))
+		}
 	}
 }
 
